@@ -3,6 +3,8 @@
    h       the source heap (the dumped reachable graph of a tree / tree list / matrix / namespace)
    seeds   objects pre-seeded in `memo` to themselves ([] for copy.deepcopy; the namespace and its taxa
            for taxon-namespace-scoped copies: ns_seeds h ns)
+   nf      variant of AnnotationSet.__deepcopy__ in the working tree (false: as found, a target None raises
+           KeyError unless None is memoised; true: repaired); every theorem holds for both
    wf_heap executable well-formedness (references inside the heap, seeds inside the heap, members of
            owned annotation sets are neither seeds nor atomic, bound-attribute names are immutable
            values, attribute names are immutable values); evaluated on every dumped case *)
@@ -13,18 +15,18 @@ Open Scope Z_scope.
 
 (* Termination: fuel above the number of source objects always suffices (every recursive call on an
    unmemoised object first enlarges memo). *)
-Theorem deepcopy_fuel_suffices : forall h seeds root fuel,
+Theorem deepcopy_fuel_suffices : forall nf h seeds root fuel,
   wf_heap h seeds = true -> 0 <= root < hlen h -> (length h < fuel)%nat ->
-  run_seeded fuel h seeds root <> OutOfFuel.
+  run_seeded nf fuel h seeds root <> OutOfFuel.
 Proof. exact deepcopy_fuel_suffices_l. Qed.
 Print Assumptions deepcopy_fuel_suffices.
 
 (* deepcopy_iso_disjoint, part 1: the result heap extends the old one (old objects untouched) and every
    object reachable from the copy is fresh except what the seeds / atomic objects reach.
    (part 2, equality of content, is deepcopy_content_bisimulation below.) *)
-Theorem deepcopy_extends_and_fresh : forall h seeds root fuel s' y,
+Theorem deepcopy_extends_and_fresh : forall nf h seeds root fuel s' y,
   wf_heap h seeds = true -> 0 <= root < hlen h -> (length h < fuel)%nat ->
-  run_seeded fuel h seeds root = Ok (s', R y) ->
+  run_seeded nf fuel h seeds root = Ok (s', R y) ->
   (forall o, o < hlen h -> hget (sh s') o = hget h o)
   /\ hlen h <= hlen (sh s')
   /\ (forall o, reach (sh s') y o ->
@@ -49,10 +51,10 @@ Print Assumptions deepcopy_extends_and_fresh.
    order.  c also is not single-valued on tuples (a re-targeted bound-attribute tuple has two recorded
    copies, one of them garbage), so "memo is an isomorphism ONTO the copy's reachable set" is not
    claimed. *)
-Theorem deepcopy_content_bisimulation_partial : forall h seeds root fuel s' y,
+Theorem deepcopy_content_bisimulation_partial : forall nf h seeds root fuel s' y,
   wf_heap h seeds = true -> wf_heap2 h = true -> memz root (owned_list h) = false ->
   0 <= root < hlen h -> (length h < fuel)%nat ->
-  run_seeded fuel h seeds root = Ok (s', R y) ->
+  run_seeded nf fuel h seeds root = Ok (s', R y) ->
   vrel (hlen h) (sc s') (R root) (R y)
   /\ (forall a b, In (a, b) (sc s') ->
         0 <= a < hlen h /\ hlen h <= b < hlen (sh s') /\
@@ -70,9 +72,9 @@ Print Assumptions deepcopy_content_bisimulation_partial.
 (* copy.deepcopy / clone(2): whatever both the source and the copy can reach is reachable from an atomic
    object (StateAlphabet / StateIdentity, whose __deepcopy__ returns self): no node, edge, taxon,
    namespace, annotation, list or dict is shared. *)
-Theorem deep_shares_nothing : forall h root fuel s' y,
+Theorem deep_shares_nothing : forall nf h root fuel s' y,
   wf_heap h [] = true -> 0 <= root < hlen h -> (length h < fuel)%nat ->
-  run fuel h root RDeep = Ok (s', R y) ->
+  run nf fuel h root RDeep = Ok (s', R y) ->
   forall o, reach (sh s') y o -> reach (sh s') root o ->
     exists b, is_atomic h b = true /\ reach h b o.
 Proof. exact deep_shares_nothing_l. Qed.
@@ -82,9 +84,9 @@ Print Assumptions deep_shares_nothing.
    from the namespace, one of its taxa, or an atomic object.  (Full statement "exactly": every seed the
    source reaches is also reached by the copy - follows from the content theorem only for seeds not
    reached through annotation sets; not stated.) *)
-Theorem scoped_shares_exactly_namespace_partial : forall h root ns fuel s' y,
+Theorem scoped_shares_exactly_namespace_partial : forall nf h root ns fuel s' y,
   wf_heap h (ns_seeds h ns) = true -> 0 <= root < hlen h -> (length h < fuel)%nat ->
-  run fuel h root (RScoped ns) = Ok (s', R y) ->
+  run nf fuel h root (RScoped ns) = Ok (s', R y) ->
   forall o, reach (sh s') y o -> reach (sh s') root o ->
     exists b, (In b (ns_seeds h ns) \/ is_atomic h b = true) /\ reach h b o.
 Proof. exact scoped_shares_only_namespace_l. Qed.
@@ -100,9 +102,9 @@ Print Assumptions frame_general.
 (* Frame after a copy, mutations of the copy: any later sequence of field writes to objects of the copy
    (numbered from hlen h: everything the copy reaches outside the shared region) and any allocations
    leave every observation of the source - its reachable set and every reachable object - unchanged. *)
-Theorem frame_copy_side : forall h seeds root fuel s' y news ws,
+Theorem frame_copy_side : forall nf h seeds root fuel s' y news ws,
   wf_heap h seeds = true -> 0 <= root < hlen h -> (length h < fuel)%nat ->
-  run_seeded fuel h seeds root = Ok (s', R y) ->
+  run_seeded nf fuel h seeds root = Ok (s', R y) ->
   (forall w, In w ws -> hlen h <= fst w) ->
   (forall o, reach h root o <-> reach (write_all (sh s' ++ news) ws) root o)
   /\ (forall o, reach h root o -> hget (write_all (sh s' ++ news) ws) o = hget h o).
@@ -113,9 +115,9 @@ Print Assumptions frame_copy_side.
    from a seed or an atomic object (for copy.deepcopy: any source object outside what atomics reach; for
    scoped copies: anything but the namespace, the taxa and what they reach) leave every observation of
    the copy unchanged. *)
-Theorem frame_source_side : forall h seeds root fuel s' y news ws,
+Theorem frame_source_side : forall nf h seeds root fuel s' y news ws,
   wf_heap h seeds = true -> 0 <= root < hlen h -> (length h < fuel)%nat ->
-  run_seeded fuel h seeds root = Ok (s', R y) ->
+  run_seeded nf fuel h seeds root = Ok (s', R y) ->
   (forall w, In w ws -> fst w < hlen h /\
       ~ exists b, (In b seeds \/ is_atomic h b = true) /\ reach h b (fst w)) ->
   (forall o, reach (sh s') y o <-> reach (write_all (sh s' ++ news) ws) y o)
@@ -147,8 +149,8 @@ Print Assumptions bound_annotations_follow_copy_partial.
 Theorem hypotheses_satisfiable :
   wf_heap ex_heap [] = true /\ wf_heap ex_heap (ns_seeds ex_heap 1) = true
   /\ (wf_heap2 ex_heap = true /\ memz 0 (owned_list ex_heap) = false)
-  /\ (exists s y, run 10 ex_heap 0 RDeep = Ok (s, R y) /\ y = 9 /\ hlen (sh s) = 19)
-  /\ (exists s y, run 10 ex_heap 0 (RScoped 1) = Ok (s, R y) /\ y = 9 /\ hlen (sh s) = 16).
+  /\ (exists s y, run false 10 ex_heap 0 RDeep = Ok (s, R y) /\ y = 9 /\ hlen (sh s) = 19)
+  /\ (exists s y, run false 10 ex_heap 0 (RScoped 1) = Ok (s, R y) /\ y = 9 /\ hlen (sh s) = 16).
 Proof. exact (conj ex_wf_deep (conj ex_wf_scoped (conj ex_wf2 (conj ex_deep_runs ex_scoped_runs)))). Qed.
 Print Assumptions hypotheses_satisfiable.
 
@@ -157,8 +159,8 @@ Print Assumptions hypotheses_satisfiable.
    hidden twin -> AttributeError; defect 2: per-cell AnnotationSet with target None -> KeyError unless
    None happened to be memoised). *)
 Theorem deepcopy_total_refuted :
-  (exists h root, wf_heap h [] = true /\ run (S (length h)) h root RDeep = Err AttrErr)
-  /\ (exists h root, wf_heap h [] = true /\ run (S (length h)) h root RDeep = Err KeyErr).
+  (exists h root, wf_heap h [] = true /\ run false (S (length h)) h root RDeep = Err AttrErr)
+  /\ (exists h root, wf_heap h [] = true /\ run false (S (length h)) h root RDeep = Err KeyErr).
 Proof.
   exact (conj (ex_intro _ twin_heap (ex_intro _ 0 (conj twin_heap_wf twin_heap_copy_fails)))
               (ex_intro _ (cell_heap (P 60)) (ex_intro _ 0 (conj (cell_heap_wf (P 60) (or_intror eq_refl)) cell_heap_copy_fails)))).
